@@ -246,3 +246,105 @@ func VerifC18ConcurrentClose() {
 	verifAssert("limiter-accepting-after-release", lim.counter.isAccepting)
 	verifReach("done")
 }
+
+// verifGatedLsnr is an inner listener whose Accept takes time: it returns when the
+// harness says so, with a connection or with an error.
+type verifGatedLsnr struct {
+	gate chan bool
+}
+
+func (l *verifGatedLsnr) Accept() (net.Conn, error) {
+	verifPending.Add(1)
+	ok := <-l.gate
+	verifPending.Add(-1)
+	if !ok {
+		return nil, errors.New("inner accept failed")
+	}
+	verifOpen.Add(1)
+	return &verifInnerConn{}, nil
+}
+func (l *verifGatedLsnr) Close() error   { return nil }
+func (l *verifGatedLsnr) Addr() net.Addr { return nil }
+
+// VerifC18PendingFail: an accept that is still inside the underlying listener holds
+// a slot of the limit; when it ends - with a connection or with an error - no accept
+// of any listener sharing the limiter stays waiting while the limiter accepts again.
+//
+//verif:harness name=H18e-pending-accept tier=quick,thorough bounds="2 listeners sharing a limiter, stop in 1..2, resume in 0..stop; stop-1 open connections, one accept pending inside the underlying listener, 1..2 accepts waiting on the other listener; the pending accept then fails or succeeds; afterwards 0..1 open connection is closed" reach=done,pending-failed,pending-succeeded,waiter-released,waiter-still-blocked maxpaths=100000 switches=0
+//verif:assume threads switch only when blocked or finished; the pending accept ends when the harness lets it
+func VerifC18PendingFail() {
+	stop := uint64(1 + verifChoice(2))
+	resume := uint64(verifChoice(int(stop) + 1))
+	verifStopAt = stop
+	verifPending.Store(0)
+	verifOpen.Store(0)
+	verifFailNext.Store(false)
+	lim, err := New(&Config{Logger: slogutil.NewDiscardLogger(), Stop: stop, Resume: resume})
+	verifAssume(err == nil)
+	si := &dnsserver.ServerInfo{Name: "s", Addr: "a", Proto: dnsserver.ProtoDoT}
+	gated := &verifGatedLsnr{gate: make(chan bool, 2)}
+	la, lb := lim.Limit(gated, si), lim.Limit(&verifInnerLsnr{}, si)
+
+	var open []net.Conn
+	for n := 0; n < int(stop)-1; n++ {
+		c, aerr := lb.Accept()
+		verifAssert("accept-ok", aerr == nil)
+		open = append(open, c)
+	}
+	var doneA atomic.Bool
+	var errA error
+	go func() {
+		var c net.Conn
+		c, errA = la.Accept()
+		if errA == nil {
+			open = append(open, c)
+		}
+		doneA.Store(true)
+	}()
+	verifRunAll()
+	verifAssert("pending-accept-holds-the-last-slot", !doneA.Load() && lim.counter.current == stop && !lim.counter.isAccepting)
+
+	waiters := 1 + verifChoice(2)
+	var doneB atomic.Int64
+	for w := 0; w < waiters; w++ {
+		go func() {
+			c, aerr := lb.Accept()
+			verifAssert("waiter-accept-ok", aerr == nil)
+			if aerr == nil {
+				open = append(open, c)
+			}
+			doneB.Add(1)
+		}()
+	}
+	verifRunAll()
+	verifAssert("accepts-wait-while-the-limit-is-held", doneB.Load() == 0)
+
+	ok := verifChoice(2) == 1
+	gated.gate <- ok
+	verifRunAll()
+	verifAssert("pending-accept-ended", doneA.Load() && (errA == nil) == ok)
+	quiescent := func() {
+		cnt := lim.counter
+		verifAssert("counter-equals-open-connections", cnt.current == uint64(verifOpen.Load()))
+		verifAssert("counter-at-most-stop", cnt.current <= stop)
+		if doneB.Load() < int64(waiters) {
+			verifAssert("waiting-accept-proceeds-once-accepting", !cnt.isAccepting)
+			verifReach("waiter-still-blocked")
+		}
+		if doneB.Load() > 0 {
+			verifReach("waiter-released")
+		}
+	}
+	quiescent()
+	if ok {
+		verifReach("pending-succeeded")
+	} else {
+		verifReach("pending-failed")
+	}
+	if verifChoice(2) == 1 && len(open) > 0 {
+		_ = open[verifChoice(len(open))].Close()
+		verifRunAll()
+		quiescent()
+	}
+	verifReach("done")
+}
